@@ -48,3 +48,23 @@ Example pa_ex_rotate :
   /\ map (fun x => pas_rotation (snd x)) (pas_doc_eff (pa_st pa_ex_doc) (pa_rotate_tree (pa_st pa_ex_doc) 6 (-90) true [] pa_ex_tree))
     = [Some 90%Z; Some 270%Z; Some 90%Z].
 Proof. vm_compute. split; reflexivity. Qed.
+
+(* resource pruning: page 10 uses font 4 and paints form 21 (object 11, no /Resources, uses font 1); form 22 (object 12) has its
+   own resources and paints 31 (object 14, no /Resources, uses font 2) but not 32: fonts 1, 2, 4 stay, 3 goes *)
+Definition rpn_ex_page : rpn_node :=
+  RpnNode 10 false false [(4, 0); (21, 1); (22, 1)]%N true [(1, 3); (2, 3); (3, 3); (4, 3)]%N
+    [(21%N, RpnNode 11 true false [(1, 0)]%N false [] []);
+     (22%N, RpnNode 12 true false [(5, 0); (31, 1)]%N true [(5, 3); (6, 3)]%N
+              [(31%N, RpnNode 14 true false [(2, 0)]%N false [] []);
+               (32%N, RpnNode 15 true false [(3, 0)]%N false [] [])])].
+Example rpn_ex_run : map fst (rpn_fonts (rpn_run rpn_ex_page)) = [1; 2; 4]%N
+  /\ map fst (rpn_xobjs (rpn_run rpn_ex_page)) = [21; 22]%N /\ rpns_needed rpn_ex_page = [4; 21; 22; 1; 2]%N.
+Proof. vm_compute. repeat split; reflexivity. Qed.
+
+(* page labels: the tree of 11-pages-with-labels.pdf (pre-1.., iv.., p..) and the selection 11-1 reversed to three pages *)
+Definition plb_ex_tree : plb_tree :=
+  [(0, PlbLab None (Some 1%N) PlbStNone); (4, PlbLab (Some 3%N) None (PlbStInt 4)); (8, PlbLab (Some 5%N) None (PlbStInt 16))]%Z.
+Example plb_ex_handle : plb_handle [Some plb_ex_tree; None] [(0%nat, 10); (0%nat, 9); (0%nat, 4); (0%nat, 5); (1%nat, 0); (1%nat, 1)]%Z =
+  [(0, PlbLab (Some 5%N) None (PlbStInt 18)); (1, PlbLab (Some 5%N) None (PlbStInt 17)); (2, PlbLab (Some 3%N) None (PlbStInt 4));
+   (4, PlbLab None None (PlbStInt 5))]%Z.
+Proof. vm_compute. reflexivity. Qed.
